@@ -5,6 +5,7 @@ import (
 	"sort"
 	"testing"
 
+	"github.com/honeycombio/refinery/logger"
 	"github.com/honeycombio/refinery/sample"
 	"github.com/honeycombio/refinery/verifharness/vkit"
 	"pgregory.net/rapid"
@@ -18,6 +19,11 @@ type c13Op struct {
 	Worker int    `json:"worker,omitempty"`
 	Dest   string `json:"dest,omitempty"`
 	To     int    `json:"to,omitempty"`
+	// overlap: membership N, call A (Kind "notify": the notification of that change;
+	// "create": worker Worker's lazy creation for Dest) reads it and is held; membership
+	// N2 and its notification; A continues
+	N2   int    `json:"n2,omitempty"`
+	Kind string `json:"kind,omitempty"`
 }
 
 type c13Case struct {
@@ -166,7 +172,11 @@ func genC13(t *rapid.T) c13Case {
 		}
 	}
 	opGen := rapid.Custom(func(t *rapid.T) c13Op {
-		switch k := rapid.IntRange(0, 9).Draw(t, "opkind"); {
+		switch k := rapid.IntRange(0, 12).Draw(t, "opkind"); {
+		case k >= 10:
+			return c13Op{Op: "overlap", Kind: rapid.SampledFrom([]string{"notify", "notify", "create"}).Draw(t, "okind"),
+				N: rapid.SampledFrom(c13Peers).Draw(t, "n1"), N2: rapid.SampledFrom(c13Peers).Draw(t, "n2"),
+				Worker: rapid.IntRange(0, 2).Draw(t, "worker"), Dest: rapid.SampledFrom(c13LookupDraw).Draw(t, "dest")}
 		case k <= 4:
 			return c13Op{Op: "get", Worker: rapid.IntRange(0, 2).Draw(t, "worker"), Dest: rapid.SampledFrom(c13LookupDraw).Draw(t, "dest")}
 		case k <= 7:
@@ -233,6 +243,14 @@ func execC13(c c13Case) vkit.Result {
 		return res
 	}
 	defer sut.stop()
+	// the factory under test gets the gate-able Peers double
+	sut.factory.Stop()
+	gp := newC13GatePeers(peers)
+	sut.factory = &sample.SamplerFactory{Config: sut.cfg, Logger: &logger.NullLogger{}, Metrics: sut.met, Peers: gp}
+	if err := sut.factory.Start(); err != nil {
+		res.Violate("harness/factory-start", "%v", err)
+		return res
+	}
 
 	cur := 0
 	prevPeers := peers    // peer count before the latest change (to classify stale values)
@@ -339,7 +357,7 @@ func execC13(c c13Case) vkit.Result {
 				peerChanges++
 			}
 			peers = n
-			sut.peers.UpdatePeers(fxPeerList(n))
+			gp.update(n)
 			live := judge(step, "peers")
 			if live > 0 && changesAtReload >= 0 && peerChanges > changesAtReload {
 				res.NonTrivial = true
@@ -347,6 +365,36 @@ func execC13(c c13Case) vkit.Result {
 			}
 			if live > 0 && n != prevPeers {
 				class("peer-change-with-live-cluster-sized-sampler")
+			}
+		case "overlap":
+			n1, n2 := max(op.N, 1), max(op.N2, 1)
+			var callA func()
+			after := "overlap-notify"
+			if op.Kind == "create" {
+				after = "overlap-create"
+				w := op.Worker % W
+				callA = func() { sut.get(w, op.Dest) }
+			}
+			if n1 != peers {
+				peerChanges++
+			}
+			if n2 != n1 {
+				peerChanges++
+			}
+			held, bFinished := gp.overlap(n1, n2, callA)
+			prevPeers, peers = n1, n2
+			live := judge(step, after)
+			switch {
+			case !held:
+				class("overlap/first-call-never-read-the-membership")
+			case bFinished:
+				class("overlap/second-notification-finished-while-first-call-held")
+			default:
+				class("overlap/second-notification-blocked-until-first-call-released")
+			}
+			if held && live > 0 && n1 != n2 {
+				res.NonTrivial = true
+				class("nt/overlapping-notifications-with-live-cluster-sized-sampler")
 			}
 		case "get", "reload-get":
 			if op.Op == "reload-get" {
@@ -387,15 +435,16 @@ func execC13(c c13Case) vkit.Result {
 func TestC13(t *testing.T) {
 	vkit.Run(t, vkit.Spec[c13Case]{
 		ID:   "C13",
-		Rule: "rapid-generated rules files (1-3 versions, later ones an operator-style edit of goal/UseClusterSize or independent; destinations with top-level and rule-downstream TotalThroughput/EMAThroughput/WindowedThroughput samplers with and without UseClusterSize, goals 1..1000, plus a few non-throughput samplers) loaded through config.NewConfig; histories of SetPeers(n in 1..200) through peer.MockPeers callbacks, lazy creation by 1-3 workers and real reloads. After every step GoalThroughputPerSec of every throughput dynsampler behind a cached sampler (verif hook) is compared with max(1, floor(goal/peers)) resp. goal. Non-trivial: a cluster-sized sampler is created after a peer-count change, or a changed reload lies between two peer-count changes while a cluster-sized sampler is live. Distinct = distinct case JSON.",
+		Rule: "rapid-generated rules files (1-3 versions, later ones an operator-style edit of goal/UseClusterSize or independent; destinations with top-level and rule-downstream TotalThroughput/EMAThroughput/WindowedThroughput samplers with and without UseClusterSize, goals 1..1000, plus a few non-throughput samplers) loaded through config.NewConfig; histories of SetPeers(n in 1..200) through the callbacks of a peer.Peers double, lazy creation by 1-3 workers, real reloads, and overlap steps (a notification or a creation is held by the double right after it has read the membership, the membership changes again and the next notification runs, then the held call continues). After every step GoalThroughputPerSec of every throughput dynsampler behind a cached sampler (verif hook) is compared with max(1, floor(goal/peers)) resp. goal. Non-trivial: a cluster-sized sampler is created after a peer-count change, or a changed reload lies between two peer-count changes while a cluster-sized sampler is live, or an overlap step with two different peer counts ran with a live cluster-sized sampler. Distinct = distinct case JSON.",
 		Assumptions: []string{
 			"'current number of peers' = length of Peers.GetPeers() (includes this node); peer counts >= 1 only",
-			"peer-count changes reach the factory through the RegisterUpdatedPeersCallback callbacks, as with the real peer implementations",
+			"peer-count changes reach the factory through the RegisterUpdatedPeersCallback callbacks, as with the real peer implementations; in overlap steps two callbacks run on their own goroutines (as with redis peers) and the verdict is taken from the goals after both have finished",
 			"live = referenced from a worker's sampler cache; reload = ClearDynsamplers then all worker caches cleared, atomically",
 			"definitions that would collide under the known C12 finding (same destination, type, goal and field set, different tuning) are not generated",
 			"GoalThroughputPerSec is read through sample/verif_hooks_c12.go while no callback is running",
 		},
-		Gen:  genC13,
-		Exec: execC13,
+		Gen:   genC13,
+		Exec:  execC13,
+		Extra: c13OverlapExtra,
 	})
 }
